@@ -163,6 +163,68 @@ fn check_cnf(clauses: &[Clause], cn: &mut Cn, with_models: bool) -> Option<(Stri
     None
 }
 
+
+fn relabel_vt(vt: &VT, map: &[usize]) -> VT {
+    match vt {
+        VT::Leaf(i) => VT::Leaf(map[*i]),
+        VT::Node(l, r) => VT::Node(Box::new(relabel_vt(l, map)), Box::new(relabel_vt(r, map))),
+    }
+}
+
+/// the same CNF written over sparse, large labels (`map[i]` = label of small variable i) in a
+/// wide manager: compiled under the identity, the reversed and a rotated order (BDD) and under
+/// every vtree over the occurring labels (SDD); models are read over the occurring labels
+fn check_cnf_sparse(clauses: &[Clause], map: &[usize], cn: &mut Cn) -> Option<(String, String)> {
+    let k = map.len();
+    let f: TT = tt::of_cnf(clauses, k);
+    let wide: Vec<Clause> = clauses.iter().map(|c| c.iter().map(|&(v, p)| (map[v], p)).collect()).collect();
+    let cnf = to_cnf(&wide);
+    let nvw = cnf.num_vars();
+    let idx = |l: usize| map.iter().position(|&m| m == l);
+    let id: Vec<usize> = (0..nvw).collect();
+    let rev: Vec<usize> = (0..nvw).rev().collect();
+    let rot: Vec<usize> = (0..nvw).map(|i| (i + nvw / 2) % nvw.max(1)).collect();
+    for order in [id, rev, rot] {
+        let b = small_builder(&order, 4);
+        let r = match guarded(|| b.compile_cnf(&cnf)) {
+            Ok(r) => r,
+            Err(p) => return Some(("bdd-cnf-panic".into(), format!("labels {:?}, order {}..: compile_cnf panicked: {}", map, order.first().cloned().unwrap_or(0), p))),
+        };
+        cn.bdd_compiles += 1;
+        match bdd_tt_mapped(r, k, &idx) {
+            Ok(g) => {
+                if g != f {
+                    return Some(("bdd-cnf".into(), format!("labels {:?}, order starting {:?}: compile_cnf has models {:#x} over the occurring labels, the CNF {:#x}", map, &order[..order.len().min(3)], g, f)));
+                }
+            }
+            Err(e) => return Some(("bdd-cnf".into(), format!("labels {:?}: {}", map, e))),
+        }
+    }
+    let used: Vec<usize> = (0..k).filter(|v| clauses.iter().any(|c| c.iter().any(|l| l.0 == *v))).collect();
+    if used.len() == k && k >= 1 {
+        for vt in vtrees_for(k) {
+            let wvt = relabel_vt(&vt, map);
+            let b = sdd_builder(&wvt, 4);
+            let r = match guarded(|| b.compile_cnf(&cnf)) {
+                Ok(r) => r,
+                Err(p) => return Some(("sdd-cnf-panic".into(), format!("labels {:?}, vtree {}: compile_cnf panicked: {}", map, wvt.show(), p))),
+            };
+            cn.sdd_compiles += 1;
+            match sdd_tt_mapped(r, k, &idx) {
+                Ok(g) => {
+                    if g != f {
+                        return Some(("sdd-cnf".into(), format!("labels {:?}, vtree {}: compile_cnf has models {:#x}, the CNF {:#x}", map, wvt.show(), g, f)));
+                    }
+                }
+                Err(e) => return Some(("sdd-cnf".into(), format!("labels {:?}: {}", map, e))),
+            }
+        }
+    }
+    None
+}
+
+const SPARSE_MAPS: [[usize; 3]; 4] = [[0, 64, 1], [63, 64, 127], [5, 69, 133], [128, 0, 64]];
+
 fn check_expr(e: &Ex, cn: &mut Cn) -> Option<(String, String)> {
     let vars = e.vars();
     let n = vars.len();
@@ -390,6 +452,42 @@ pub fn run(ctx: &Ctx) -> Report {
         rep.add_extra("repeated_literal_and_long_cnfs", fam.states);
         rep.merge(fam);
     }
+    // (iv) sparse, large labels (wide managers: labels on both sides of every machine-word
+    // boundary up to 133): every sequence of <= 2 clauses over 3 variables, relabelled
+    {
+        let types = clause_types(3);
+        let mut sets = sequences(64, 2);
+        if ctx.tier == Tier::Thorough {
+            sets.extend(multisets(64, 3).into_iter().filter(|m| m.len() == 3).step_by(11));
+        }
+        let maps: Vec<[usize; 3]> = SPARSE_MAPS.to_vec();
+        let chunks: Vec<&[Vec<usize>]> = sets.chunks(64).collect();
+        let fam = par_run(ctx, &chunks, |_, chunk| {
+            let mut r = Report::default();
+            r.exhaustive = true;
+            let mut cn = Cn::default();
+            for s in chunk.iter() {
+                let clauses: Vec<Clause> = s.iter().map(|&i| types[i].clone()).collect();
+                for m in maps.iter() {
+                    r.states += 1;
+                    r.traces += 1;
+                    if let Some((k, w)) = check_cnf_sparse(&clauses, m, &mut cn) {
+                        r.violation(format!("compile:{}", k), format!("cnf {} relabelled by {:?}: {}", cnf_json(&clauses), m, w), json!({"kind": "sparse", "cnf": cnf_json(&clauses), "map": m.to_vec()}));
+                    }
+                }
+                if r.n_violations > 16 {
+                    break;
+                }
+            }
+            r.transitions += cn.bdd_compiles + cn.sdd_compiles;
+            r.add_extra("bdd_compilations", cn.bdd_compiles);
+            r.add_extra("sdd_compilations", cn.sdd_compiles);
+            r
+        });
+        rep.add_extra("sparse_label_cnfs", fam.states);
+        rep.bound("sparse_labels", json!({"label_maps": maps.iter().map(|m| m.to_vec()).collect::<Vec<_>>(), "cnfs": sets.len(), "bdd_orders": ["identity", "reversed", "rotated by half"], "vtrees": "all 12 over the occurring labels"}));
+        rep.merge(fam);
+    }
     // expressions
     let k = ctx.tier.pick(2, 3);
     let mut ex = exprs_up_to(k, 3);
@@ -457,6 +555,15 @@ pub fn replay(_ctx: &Ctx, case: &Value) -> Report {
             let c = cnf_from_json(&case["cnf"]);
             if let Some((k, w)) = check_cnf(&c, &mut cn, c.len() < 10) {
                 rep.violation(format!("compile:{}", k), w, case.clone());
+            }
+        }
+        Some("sparse") => {
+            let c = cnf_from_json(&case["cnf"]);
+            let m: Vec<usize> = case["map"].as_array().map(|a| a.iter().filter_map(|x| x.as_u64().map(|y| y as usize)).collect()).unwrap_or_default();
+            if m.len() == 3 {
+                if let Some((k, w)) = check_cnf_sparse(&c, &m, &mut cn) {
+                    rep.violation(format!("compile:{}", k), w, case.clone());
+                }
             }
         }
         Some("expr") => {
